@@ -14,7 +14,35 @@ from ..envmodels import MemPipe
 
 import anyio  # noqa: E402
 from anyio import BrokenResourceError, ClosedResourceError, EndOfStream  # noqa: E402
-from anyio.streams.tls import TLSStream  # noqa: E402
+from anyio.streams.tls import TLSConnectable, TLSListener, TLSStream  # noqa: E402
+import logging  # noqa: E402
+
+logging.getLogger("anyio.streams.tls").disabled = True  # handshake errors of truncated runs
+
+
+class MemListener(anyio.abc.Listener):
+    """Hands the server end of the in-memory pipe to the handler, once."""
+
+    def __init__(self, end):
+        self.end = end
+
+    async def serve(self, handler, task_group=None):
+        await handler(self.end)
+
+    async def aclose(self):
+        pass
+
+    @property
+    def extra_attributes(self):
+        return {}
+
+
+class MemConnectable(anyio.abc.ByteStreamConnectable):
+    def __init__(self, end):
+        self.end = end
+
+    async def connect(self):
+        return self.end
 
 CERTS = os.path.join(os.path.dirname(os.path.dirname(os.path.abspath(__file__))), "certs")
 _CTX = {}
@@ -80,6 +108,16 @@ def programs(tier):
                                           "delay_reader": delay,
                                           "label": f"TLS{ver} sc={sc} c={cm} s={sm} recv={rs} "
                                                    f"chunks={pol} delay_reader={delay}"})
+    # the convenience entry points (TLSListener.serve / TLSConnectable.connect) instead of wrap()
+    for ver in ("1.2", "1.3"):
+        for sc in (True, False):
+            for pol in (("all",) if tier == "quick" else ("all", "7")):
+                progs.append({"custom": "mc.families.c17_tls:build", "version": ver,
+                              "standard_compatible": sc, "client_msgs": [2, 5], "server_msgs": [3],
+                              "recv_size": 7, "policy": pol, "delay_reader": False,
+                              "entry": "listener",
+                              "label": f"TLS{ver} sc={sc} via TLSListener/TLSConnectable "
+                                       f"chunks={pol}"})
     return progs
 
 
@@ -87,6 +125,11 @@ def build(world, program):
     w = world
     ctl = w.ctl
     log = w.ev
+
+    if program.get("entry") == "listener":
+        # TLSListener guards the handshake with fail_after(30): the clock is not an explored
+        # dimension here (a handshake that takes 30 s is legitimately dropped)
+        ctl.k2_budget = 0
 
     async def main():
         asyncio.current_task()._vname = "main"
@@ -98,11 +141,46 @@ def build(world, program):
         rs = program["recv_size"]
 
         async def side(role):
+            fin = anyio.Event()
+            async with anyio.create_task_group() as ltg:
+                try:
+                    await side_inner(role, ltg, fin)
+                finally:
+                    fin.set()
+
+        async def side_inner(role, ltg, fin):
             end = pipe.ends[0 if role == "client" else 1]
             mine, theirs = (cm, sm) if role == "client" else (sm, cm)
             want = sum(map(len, theirs))
             try:
-                if role == "client":
+                if program.get("entry") == "listener" and role == "client":
+                    stream = await TLSConnectable(MemConnectable(end), hostname="localhost",
+                                                  ssl_context=cctx,
+                                                  standard_compatible=sc).connect()
+                elif program.get("entry") == "listener":
+                    # the convenience entry points: TLSListener.serve() hands the wrapped
+                    # stream to a handler, which keeps it until this side is through
+                    got_ev = anyio.Event()
+                    box = {}
+
+                    async def handler(s):
+                        box["s"] = s
+                        got_ev.set()
+                        await fin.wait()
+
+                    async def run_listener():
+                        try:
+                            await TLSListener(MemListener(end), sctx,
+                                              standard_compatible=sc).serve(handler)
+                        finally:
+                            got_ev.set()
+
+                    ltg.start_soon(run_listener)
+                    await got_ev.wait()
+                    if "s" not in box:
+                        raise BrokenResourceError("handshake failed inside TLSListener")
+                    stream = box["s"]
+                elif role == "client":
                     stream = await TLSStream.wrap(end, hostname="localhost", ssl_context=cctx,
                                                   standard_compatible=sc)
                 else:
